@@ -89,8 +89,41 @@ def starred_probe(ctx, key):
             return
 
 
+def handbuilt_arguments_probe(ctx):
+    """a called lambda whose ast.arguments node was built by hand without the optional fields (posonlyargs, kwonlyargs, ...;
+    legal on Python < 3.13): the call is substituted as for a parsed lambda, nothing but the index error may be raised
+    (wave-10 review of repo fix 8f72987, which read the fields directly; repaired by 55520b1)"""
+    import ast
+
+    for n_params in (1, 2):
+        names = ["x", "y"][:n_params]
+        for drop in (["posonlyargs"], ["posonlyargs", "kwonlyargs", "kw_defaults"], ["posonlyargs", "vararg", "kwarg"]):
+            fields = {"args": [ast.arg(arg=p) for p in names], "vararg": None, "kwonlyargs": [], "kw_defaults": [], "kwarg": None, "defaults": []}
+            for d in drop:
+                fields.pop(d, None)
+            args = ast.arguments(**fields)
+            for d in drop:   # newer Pythons fill missing optional fields in; the probe is about nodes that lack them
+                if hasattr(args, d) and d in ("posonlyargs", "kwonlyargs", "kw_defaults"):
+                    try:
+                        delattr(args, d)
+                    except AttributeError:
+                        pass
+            body = ast.Tuple(elts=[ast.Name(p, ast.Load()) for p in names], ctx=ast.Load())
+            call = ast.Call(ast.Lambda(args=args, body=ast.Subscript(body, ast.Constant(0), ast.Load())), [ast.Constant(5 + i) for i in range(n_params)], [])
+            ctx.count(f"handbuilt-arguments:{n_params}:{','.join(drop)}", True, tags=["hand-built arguments node"])
+            try:
+                out = simplify.run_simplifier(call)
+                got = ast.dump(out)
+            except Exception as e:
+                got = f"raises {type(e).__name__}: {e}"[:160]
+            if got != ast.dump(ast.Constant(5)):
+                ctx.violate({"params": names, "fields_missing": drop, "got": got[:200]},
+                            "C18: a called lambda whose hand-built arguments node lacks optional fields is not substituted (or the simplifier raised)")
+
+
 def run(ctx):
     comprehension_probe(ctx, "C18-comprehension-target-load-context")
+    handbuilt_arguments_probe(ctx)
     starred_probe(ctx, "C18-starred-element-in-indexed-literal")
     simplify.check_queries(ctx, substitution_family(ctx.rng, ctx.n(80, 2000)), "c18-substitution")
     n = ctx.n(1000, 50000)
